@@ -300,6 +300,52 @@ pub proof fn lemma_applied_gives_rollback_pre(c0: Seq<Seq<u8>>, hs: Seq<Hunk<&[u
     }
 }
 
+/// accessor: what applied_state says in general and about hunk i
+pub proof fn lemma_applied_state_at(c0: Seq<Seq<u8>>, hs: Seq<Hunk<&[u8]>>, d: PatchDirection, reps: Seq<HunkApplyReport>, i: int)
+    requires applied_state(c0, hs, d, reps), 0 <= i < hs.len()
+    ensures
+        reps.len() == hs.len(), hunks_wf(hs), hunk_wf(hs[i]),
+        cores_ordered(c0.len() as int, hs, d, reps, hs.len() as int),
+        reps[i] is Applied ==> norm(reps[i]) == applied_report(hs[i], d, reps[i]->fuzz as int, reps[i]->line as int)
+                               && reps[i]->rollback_line == reps[i]->line + sp_moff(c0, hs, d, reps, i),
+{
+    reveal(applied_state);
+    let _ = reps[i];
+}
+
+pub proof fn lemma_applied_state_len(c0: Seq<Seq<u8>>, hs: Seq<Hunk<&[u8]>>, d: PatchDirection, reps: Seq<HunkApplyReport>)
+    requires applied_state(c0, hs, d, reps)
+    ensures reps.len() == hs.len()
+{
+    reveal(applied_state);
+}
+
+/// hunk i, seen from the patched file: rollback mode finds it again at its recorded line (or skips it if it had failed)
+pub proof fn lemma_rollback_applied_at(c0: Seq<Seq<u8>>, hs: Seq<Hunk<&[u8]>>, d: PatchDirection, reps: Seq<HunkApplyReport>, und: Seq<HunkApplyReport>, i: int)
+    requires
+        applied_state(c0, hs, d, reps),
+        und.len() == hs.len(), 0 <= i < hs.len(),
+        reports_rollback(hs, opp(d), reps, splice_spec(c0, hs, d, reps), false, und, hs.len() as int),
+    ensures
+        norm(und[i]) == undo_report(hs[i], d, reps[i]),
+        !(und[i] is Failed),
+{
+    let c1 = splice_spec(c0, hs, d, reps);
+    lemma_applied_state_at(c0, hs, d, reps, i);
+    let _ = und[i];
+    if reps[i] is Applied {
+        let h = hs[i];
+        let f = reps[i]->fuzz as int;
+        lemma_view_opposite(h, d, f);
+        lemma_patched_segments(c0, hs, d, reps, i);
+        let nc = deep(v_new_core(h, d, f));
+        let at = reps[i]->rollback_line + v_pc(h, f);
+        assert(at == sp_out(c0, hs, d, reps, i).len() + (rep_core_start(h, reps[i]) - sp_pos(hs, d, reps, i)));
+        assert(c1.subrange(at, at + nc.len()) == nc);
+        assert(matches_at(deep(v_old_core(h, opp(d), f)), c1, at));
+    }
+}
+
 /// on the patched file, rollback mode finds every applied hunk again: its reports are exactly the undo reports
 pub proof fn lemma_rollback_all_applied(c0: Seq<Seq<u8>>, hs: Seq<Hunk<&[u8]>>, d: PatchDirection, reps: Seq<HunkApplyReport>, und: Seq<HunkApplyReport>)
     requires
@@ -311,25 +357,10 @@ pub proof fn lemma_rollback_all_applied(c0: Seq<Seq<u8>>, hs: Seq<Hunk<&[u8]>>, 
         !any_failed_spec(und, hs.len() as int),
 {
     reveal(undo_like);
-    reveal(applied_state);
     let n = hs.len() as int;
-    let c1 = splice_spec(c0, hs, d, reps);
+    lemma_applied_state_len(c0, hs, d, reps);
     assert forall|i: int| 0 <= i < n implies norm(#[trigger] und[i]) == undo_report(hs[i], d, reps[i]) && !(und[i] is Failed) by {
-        if reps[i] is Applied {
-            let h = hs[i];
-            let f = reps[i]->fuzz as int;
-            assert(hunk_wf(h));
-            lemma_view_opposite(h, d, f);
-            lemma_patched_segments(c0, hs, d, reps, i);
-            lemma_cores_prefix(c0, hs, d, reps, i, n);
-            lemma_out_len(c0, hs, d, reps, i);
-            assert(norm(reps[i]) == applied_report(h, d, f, reps[i]->line as int));
-            assert(reps[i]->rollback_line == reps[i]->line + sp_moff(c0, hs, d, reps, i));
-            let nc = deep(v_new_core(h, d, f));
-            let at = reps[i]->rollback_line + v_pc(h, f);
-            assert(c1.subrange(at, at + nc.len()) == nc);
-            assert(matches_at(deep(v_old_core(h, opp(d), f)), c1, at));
-        }
+        lemma_rollback_applied_at(c0, hs, d, reps, und, i);
     }
     lemma_no_failed(und, n);
 }
